@@ -65,6 +65,8 @@ open ZapVerif ZapVerif.GoMini ZapVerif.Gen.TransOpen
 @[simp] theorem bi_8 (a : List Val) : builtin "loggerWriter" a = none := builtin_none _ _ (by decide)
 @[simp] theorem bi_9 (a : List Val) : builtin "id" a = none := builtin_none _ _ (by decide)
 
+@[simp] theorem ext_toLower (P : Par) (s : Bytes) : ext P "strings.ToLower" [.bytes s] = some [.bytes (P.toLower s)] := id rfl
+@[simp] theorem bi_24 (a : List Val) : builtin "strings.ToLower" a = none := builtin_none _ _ (by decide)
 @[simp] theorem bi_10 (a : List Val) : builtin "zapcore.AddSync" a = none := builtin_none _ _ (by decide)
 @[simp] theorem bi_11 (a : List Val) : builtin "zapcore.Lock" a = none := builtin_none _ _ (by decide)
 @[simp] theorem bi_12 (a : List Val) : builtin "zapcore.NewMultiWriteSyncer" a = none := builtin_none _ _ (by decide)
